@@ -5,6 +5,7 @@
  *   S hi lo size                      svt_aom_uleb_size_in_bytes(value)
  *   E hi lo avail rc n b0 .. bn-1     svt_aom_uleb_encode(value, avail, buf, &n)     (n, bytes only when rc == 0; untouched guard bytes checked here)
  *   D skip nbytes b.. | hi lo len     dec_get_bits_leb128 after `skip` bytes were read with dec_get_bits(bs, 8)
+ *   O hdr psize total b.. | rc lf b..   obu_mem_move + write_uleb_obu_size on a buffer holding header, payload and `total-hdr-psize` spare bytes
  */
 #include <stdio.h>
 #include <stdlib.h>
@@ -61,6 +62,20 @@ static void do_decode(const uint8_t *bytes, size_t nbytes, unsigned skip) {
     printf(" | %u %u %zu %u\n", (unsigned)((uint64_t)value >> 32), (unsigned)value, length, nxt);
 }
 
+static void do_obu(unsigned hdr, unsigned psize, unsigned spare) {
+    unsigned total = hdr + psize + spare;
+    uint8_t *b     = malloc(total + 16);
+    for (unsigned i = 0; i < total + 16; i++) b[i] = (uint8_t)rnd();
+    printf("O %u %u %u", hdr, psize, total);
+    for (unsigned i = 0; i < total; i++) printf(" %u", b[i]);
+    size_t  lf = obu_mem_move(hdr, psize, b);
+    int32_t rc = write_uleb_obu_size(hdr, psize, b);
+    printf(" | %d %zu", rc == AOM_CODEC_OK ? 0 : -1, lf);
+    for (unsigned i = 0; i < total; i++) printf(" %u", b[i]);
+    printf("\n");
+    free(b);
+}
+
 int main(int argc, char **argv) {
     rs           = 0x9E3779B97F4A7C15ull ^ (argc > 1 ? strtoull(argv[1], 0, 10) * 0x2545F4914F6CDD1Dull : 0);
     int     nrnd = argc > 2 ? atoi(argv[2]) : 2000;
@@ -102,6 +117,13 @@ int main(int argc, char **argv) {
             for (int q = 0; q < 4; q++) t[n + q] = (uint8_t)rnd();
             do_decode(t, n + 4, (unsigned)(rnd() % 8));
         }
+    }
+    /* closing an OBU: payload sizes around the one/two/three-byte size fields, header of 1 or 2 bytes, spare room 4..7 */
+    {
+        unsigned ps[] = {0, 1, 2, 126, 127, 128, 129, 255, 256, 16382, 16383, 16384, 16385};
+        for (unsigned j = 0; j < sizeof ps / sizeof ps[0]; j++)
+            for (unsigned hdr = 1; hdr <= 2; hdr++) do_obu(hdr, ps[j], 4 + (unsigned)(rnd() % 4));
+        for (int i = 0; i < nrnd / 40; i++) do_obu(1 + (unsigned)(rnd() & 1), (unsigned)(rnd() % ((rnd() & 3) ? 300 : 20000)), 4 + (unsigned)(rnd() % 4));
     }
     /* byte strings that are not encoder output: long continuation runs (8 bytes and more), over-long encodings, zero groups */
     for (int i = 0; i < nrnd; i++) {
